@@ -21,6 +21,17 @@ def _pm(f: FuncInfo) -> t.Dict[str, str]:
     return pm
 
 
+def find_options_replace(f: FuncInfo) -> t.Optional[ast.Call]:
+    """The ``<options>.replace(name=..., eq=..., ...)`` call of __init_subclass__ (whatever the local is called)."""
+    best = None
+    for c in ast.walk(f.node):
+        if isinstance(c, ast.Call) and isinstance(c.func, ast.Attribute) and c.func.attr == 'replace':
+            kws = {k.arg for k in c.keywords if k.arg}
+            if len(kws & {'eq', 'order', 'frozen', 'kw_only', 'allow_extra', 'out_format', 'in_format', 'class_handlers'}) >= 4:
+                best = c
+    return best
+
+
 def _literal_strings(model: Model, modname: str, name: str) -> t.List[str]:
     v = model.module(modname).assign_values.get(name)
     if not isinstance(v, ast.Subscript):
@@ -118,15 +129,27 @@ def rule_c15_r3(model: Model) -> RuleResult:
     nz = Normalizer(model, f, cfg, param_map=_pm(f))
     r.analysed.add(f.qualname)
     loops = [n for n in cfg.live_nodes() if n.kind == 'iter']
+    # the bound variables and the field list are identified through the PaneInfo(...) record they end up in
+    min_name = max_name = fields_name = None
+    for c in ast.walk(f.node):
+        if isinstance(c, ast.Call) and unparse(c.func) == 'PaneInfo':
+            for k in c.keywords:
+                if k.arg == 'pos_args' and isinstance(k.value, ast.Tuple) and len(k.value.elts) == 2 and all(isinstance(e, ast.Name) for e in k.value.elts):
+                    min_name, max_name = k.value.elts[0].id, k.value.elts[1].id
+                if k.arg == 'fields':
+                    nm = [x.id for x in ast.walk(k.value) if isinstance(x, ast.Name) and x.id not in ('tuple', 'list')]
+                    fields_name = nm[0] if nm else None
+    if min_name is None or fields_name is None:
+        raise AnalysisError(f"{f.loc()}: _process: PaneInfo(... fields=..., pos_args=(min, max)) not found")
     bounds = None
     for lp in loops:
         body = [n for n in cfg.live_nodes() if lp.ast in n.loop_of]
-        if any(n.kind == 'stmt' and isinstance(n.ast, ast.AugAssign) and unparse(n.ast.target) == 'max_len' for n in body):
+        if any(n.kind == 'stmt' and isinstance(n.ast, ast.AugAssign) and unparse(n.ast.target) == max_name for n in body):
             bounds = lp
     if bounds is None:
         raise AnalysisError(f"{f.loc()}: _process: loop computing the positional bounds not found")
     body = [n for n in cfg.live_nodes() if bounds.ast in n.loop_of]
-    inc = [n for n in body if n.kind == 'stmt' and isinstance(n.ast, ast.AugAssign) and unparse(n.ast.target) == 'max_len'][0]
+    inc = [n for n in body if n.kind == 'stmt' and isinstance(n.ast, ast.AugAssign) and unparse(n.ast.target) == max_name][0]
     lits = set()
     for a in cfg.nodes:
         if a.kind == 'cond':
@@ -142,7 +165,7 @@ def rule_c15_r3(model: Model) -> RuleResult:
     else:
         r.fail(f.qualname, f"counted when {sorted(lits)}", f.loc(inc.ast), "the positional count must include exactly the fields with init=True that are not keyword-only")
     # min_len advances only for fields without default
-    mins = [n for n in body if n.kind == 'stmt' and isinstance(n.ast, ast.Assign) and unparse(n.ast.targets[0]) == 'min_len']
+    mins = [n for n in body if n.kind == 'stmt' and isinstance(n.ast, ast.Assign) and unparse(n.ast.targets[0]) == min_name]
     r.instances += 1
     if mins:
         ml = set()
@@ -152,14 +175,14 @@ def rule_c15_r3(model: Model) -> RuleResult:
                     if a.edge(lb) and cfg.edge_dominates(a, lb, mins[0]):
                         text, pos = nz.literal(a.ast, a)
                         ml.add(('' if pos == (lb == 'T') else 'not ') + text)
-        if any('default' in x for x in ml) and nz.expr(mins[0].ast.value, mins[0]).count('max_len') + 1 >= 1:
+        if any('default' in x for x in ml):
             r.ok()
         else:
             r.fail(f.qualname, f"min_len set when {sorted(ml)}", f.loc(mins[0].ast), "the required positional count is not tied to fields without a default")
     else:
         r.fail(f.qualname, 'min_len never advanced', f.loc(), "required positional fields are not counted")
     # the keyword-only reorder precedes the bounds loop and the PaneInfo store, and is a stable partition
-    reorder = [n for n in cfg.live_nodes() if n.kind == 'stmt' and isinstance(n.ast, ast.Assign) and unparse(n.ast.targets[0]) == 'fields'
+    reorder = [n for n in cfg.live_nodes() if n.kind == 'stmt' and isinstance(n.ast, ast.Assign) and unparse(n.ast.targets[0]) == fields_name
                and 'kw_only' in unparse(n.ast.value)]
     r.instances += 1
     if len(reorder) != 1:
@@ -188,7 +211,7 @@ def rule_c15_r3(model: Model) -> RuleResult:
                 good = False
         r.sample({'reorder': [(('' if p[1] else 'not ') + p[0], src) for (p, src) in parts]})
         form = unparse(val)
-        if good and [p for (p, _s) in parts] == [('TRUTHY(λ0.kw_only)', False), ('TRUTHY(λ0.kw_only)', True)] and parts[0][1] == parts[1][1] == 'fields':
+        if good and [p for (p, _s) in parts] == [('TRUTHY(λ0.kw_only)', False), ('TRUTHY(λ0.kw_only)', True)] and parts[0][1] == parts[1][1] == fields_name:
             r.ok()
         else:
             r.fail(f.qualname, f"fields = {form[:160]}", f.loc(reorder[0].ast),
@@ -272,12 +295,9 @@ def rule_c16_r2(model: Model) -> RuleResult:
     f = model.func(f'{CLS}.PaneBase.__init_subclass__')
     r.analysed.add(f.qualname)
     params = set(f.params)
-    rep = None
-    for c in ast.walk(f.node):
-        if isinstance(c, ast.Call) and isinstance(c.func, ast.Attribute) and c.func.attr == 'replace' and unparse(c.func.value) == 'opts':
-            rep = c
+    rep = find_options_replace(f)
     if rep is None:
-        raise AnalysisError(f"{f.loc()}: __init_subclass__ has no opts.replace(...) call")
+        raise AnalysisError(f"{f.loc()}: __init_subclass__ has no <options>.replace(...) call")
     kws = {k.arg: k.value for k in rep.keywords if k.arg}
     alias = {'class_handlers': 'custom'}
     for fld in fields:
@@ -522,13 +542,14 @@ def rule_c17_r1(model: Model) -> RuleResult:
     for a, d in zip(args.kwonlyargs, args.kw_defaults):
         defaults[a.arg] = d
     rep = None
+    target = find_options_replace(f)
     for n in cfg.live_nodes():
         for root in node_exprs(n):
             for c in walk_no_nested(root):
-                if isinstance(c, ast.Call) and isinstance(c.func, ast.Attribute) and c.func.attr == 'replace' and unparse(c.func.value) == 'opts':
+                if c is target:
                     rep = (n, c)
     if rep is None:
-        raise AnalysisError(f"{f.loc()}: no opts.replace(...) call")
+        raise AnalysisError(f"{f.loc()}: no <options>.replace(...) call")
     n, c = rep
     rd = cfg.reaching()
     for k in c.keywords:
@@ -622,26 +643,35 @@ def rule_c17_r3(model: Model) -> RuleResult:
     # all writes to `specs`
     bad = []
     n_upd = 0
+    # the merged spec table: the local whose items are turned into Fields by make_field
+    specs_name = None
+    for c in ast.walk(f.node):
+        if isinstance(c, (ast.ListComp, ast.GeneratorExp)) and 'make_field' in unparse(c.elt) and c.generators:
+            it = c.generators[0].iter
+            if isinstance(it, ast.Call) and isinstance(it.func, ast.Attribute) and it.func.attr == 'items' and isinstance(it.func.value, ast.Name):
+                specs_name = it.func.value.id
+    if specs_name is None:
+        raise AnalysisError(f"{f.loc()}: _process: the merged spec table (iterated with make_field) was not found")
     for n in cfg.live_nodes():
         if n.kind == 'stmt' and isinstance(n.ast, (ast.Assign, ast.AnnAssign)):
             tgts = n.ast.targets if isinstance(n.ast, ast.Assign) else [n.ast.target]
             for tg in tgts:
-                if isinstance(tg, ast.Name) and tg.id == 'specs' and n.ast.value is not None:
+                if isinstance(tg, ast.Name) and tg.id == specs_name and n.ast.value is not None:
                     v = n.ast.value
                     if isinstance(v, ast.Dict) and not v.keys:
                         continue
                     if isinstance(v, ast.DictComp) and len(v.generators) == 1 and not v.generators[0].ifs \
-                            and unparse(v.generators[0].iter) == 'specs.items()' and isinstance(v.key, ast.Name):
+                            and unparse(v.generators[0].iter) == f'{specs_name}.items()' and isinstance(v.key, ast.Name):
                         continue      # value rewrite, keys and order preserved
                     bad.append(n)
         for root in node_exprs(n):
             for c in walk_no_nested(root):
-                if isinstance(c, ast.Call) and isinstance(c.func, ast.Attribute) and unparse(c.func.value) == 'specs':
+                if isinstance(c, ast.Call) and isinstance(c.func, ast.Attribute) and unparse(c.func.value) == specs_name:
                     if c.func.attr == 'update':
                         n_upd += 1
                     elif c.func.attr in ('pop', 'clear', 'popitem', 'setdefault', '__delitem__'):
                         bad.append(n)
-        if n.kind == 'stmt' and isinstance(n.ast, ast.Delete) and any(unparse(tg).startswith('specs[') for tg in n.ast.targets):
+        if n.kind == 'stmt' and isinstance(n.ast, ast.Delete) and any(unparse(tg).startswith(f'{specs_name}[') for tg in n.ast.targets):
             bad.append(n)
     r.instances += 1
     r.sample({'specs.update calls': n_upd, 'other writes': [unparse(b.ast)[:60] for b in bad]})
@@ -665,8 +695,12 @@ def rule_c17_r4(model: Model) -> RuleResult:
     r.instances += 1
     form = None
     for n in cfg.live_nodes():
-        if n.kind == 'stmt' and isinstance(n.ast, ast.Assign) and any(unparse(tg) == 'bound_vars' for tg in n.ast.targets):
-            form = nz.expr(n.ast.value, n)
+        for root in node_exprs(n):
+            for d in walk_no_nested(root):
+                if isinstance(d, ast.Dict):
+                    for k, v in zip(d.keys, d.values):
+                        if k is not None and nz.expr(k, n) == "'__pane_boundvars__'":
+                            form = nz.expr(v, n)
     r.sample({'bound_vars': form})
     want = ("zip(getattr(cls.__parameters__, ()), $params)", "dict(zip(getattr(cls.__parameters__, ()), $params))")
     if form is not None and form.replace('$cls', 'cls') in want:
